@@ -215,6 +215,12 @@ def write_evidence(prop, tier, seed, meta, results, discharged, refuted, undecid
                     detail=r.detail[:300] if r.status != R.DISCHARGED else "")
                for r in sorted(results, key=lambda x: x.name)]
     slow = [r.name for r in results if r.seconds > 5.0]
+    job_secs = {}
+    for r in results:
+        j = r.extra.get("job")
+        if j:
+            job_secs[j] = max(job_secs.get(j, 0), r.extra.get("job_seconds", 0))
+    slowest_jobs = sorted(job_secs.items(), key=lambda t: -t[1])[:8]
     cov = dict(
         obligations=counted,
         discharged=len(discharged),
@@ -229,6 +235,8 @@ def write_evidence(prop, tier, seed, meta, results, discharged, refuted, undecid
         discharged_by_scope=by_scope,
         solver_seconds_total=solver_s,
         slow_obligations=slow,
+        slowest_jobs=slowest_jobs,
+        jobs=len(job_secs),
         bounded_stand_ins=[dict(name=r.name, bound=r.scope, detail=r.detail[:300]) for r in bounded],
         bounded_stand_ins_count=len(bounded),
         canaries_refuted=len(canaries),
